@@ -182,6 +182,21 @@ class FingerprintDatabase(object):
             for prop_name in prop_names:
                 new_props[prop_name].append(fprint.get_prop(prop_name))
 
+        # build and check the property columns before anything is changed:
+        # a refused batch must leave the database untouched
+        full_props = {}
+        for prop_name, prop_vals in new_props.items():
+            if prop_name in self.props:
+                prop_vals = np.append(self.get_prop(prop_name), prop_vals)
+            prop_vals = np.asanyarray(prop_vals)
+            if prop_vals.ndim == 0 or prop_vals.shape[0] != len(
+                self.fp_names
+            ) + len(new_names):
+                raise ValueError(
+                    "props must have the same count as fingerprints."
+                )
+            full_props[prop_name] = prop_vals
+
         try:
             old_fp_num = self.fp_num
             self.array = vstack([self.array] + list(new_rows))
@@ -193,7 +208,7 @@ class FingerprintDatabase(object):
 
         self.fp_names += new_names
         self.update_names_map(new_names=new_names, offset=old_fp_num)
-        self.update_props(new_props, append=True)
+        self.update_props(full_props)
 
     def update_names_map(self, new_names=None, offset=0):
         """Update map of fingerprint names to row indices of `self.array`.
